@@ -319,3 +319,36 @@ def d19_6(ctx):
                   f"DataTypes.get_type({c:#04x}) yields {r.ci.name if isinstance(r, ClassRef) else r!r}; the table maps that code to {sorted(codes[c])} (lookup and type resolution disagree for this code)", code=c)
     r = res[unknown_code]
     ctx.check(r is None, ckey(tbl.key + ".get_type", "unknown-code"), gt, "an unknown code resolves to None", f"get_type of a code outside the table yields {r!r} instead of None", code=unknown_code)
+
+
+@rule(P, "D19.7", "T-SPEC", floor=20)
+def d19_7(ctx):
+    """Services.from_reply maps the reply code (request code | 0x80) of every service of the table back to a name of that
+    very service, and a reply code of no service to None: the method is folded for every member code (tables of other
+    classes it consults are modelled the same way)."""
+    from .common import enum_method_results
+
+    svc = ctx.model.cls("pycomm3.cip.services:Services")
+    fr = svc.methods.get("from_reply")
+    if fr is None:
+        ctx.undecided(ckey(svc.key + ".from_reply"), svc.node, "anchor vanished")
+        return
+    by_name, rev = ctx.folder.enum_tables(svc)
+    codes = {}
+    for name, v in by_name.items():
+        if isinstance(v, bytes) and len(v) == 1:
+            codes.setdefault(v, set()).add(name)
+    inputs = {bytes([c[0] | 0x80]): c for c in codes if c[0] < 0x80}
+    unknown = next(bytes([x | 0x80]) for x in range(1, 0x80) if bytes([x]) not in codes)
+    res, _, _ = enum_method_results(ctx, svc, fr, sorted(inputs) + [unknown])
+    for reply, code in sorted(inputs.items()):
+        r = res[reply]
+        key = ckey(svc.key + ".from_reply", f"reply:{reply.hex()}")
+        if r is UNKNOWN:
+            ctx.undecided(key, fr, "from_reply not foldable for this reply code")
+            continue
+        ok = (isinstance(r, str) and r.lower() in codes[code]) or r == code
+        ctx.check(ok, key, fr, f"from_reply({reply.hex()}) -> {r!r}", f"Services.from_reply({reply.hex()}) yields {r!r}; the reply belongs to {sorted(codes[code])} (code {code.hex()}): "
+                  f"replies of that service are then classified as belonging to no service", reply=reply.hex())
+    r = res[unknown]
+    ctx.check(r is None, ckey(svc.key + ".from_reply", "unknown-reply"), fr, "a reply code of no service resolves to None", f"from_reply of a reply code outside the table yields {r!r}", reply=unknown.hex())
